@@ -220,3 +220,44 @@ def frame_bounded(V, fn):
                 CS.check_fresh_equivalence(V, out, sig, ['velocity', 'displacement'], tag='signal-%s/' % name)
         if n_out > 40:
             break
+
+
+# ----------------------------------------------------------------------------- cluster-level mutators keep every signal well formed
+M_ = 'eqsig.multiple.'
+
+
+@unit('C05', 'Cluster.time_match/same_start-keep-signals-well-formed', functions=[M_ + 'Cluster.time_match', M_ + 'Cluster.same_start'],
+      cases=[dict(op='time_match', lag=l, master=m, extra=e, dtype=d) for l in (-1, 0, 1) for m in (0, 1) for e in (0, 2) for d in ('float',)] +
+            [dict(op='time_match', lag=1, master=0, extra=2, dtype='int'), dict(op='same_start', lag=0, master=0, extra=0, dtype='float'),
+             dict(op='same_start', lag=0, master=1, extra=2, dtype='float')],
+      modes=('bounded',), sizes=dict(n=[5]), budget_ms=30000)
+def cluster_mutators(V, op, lag, master, extra, dtype):
+    """Two-signal clusters whose second record may be LONGER than the first (extra trailing samples) and lags the first by `lag`
+    samples: after the cluster-level mutator every signal still holds a numeric array whose length equals npts, time = dt*[0..npts-1],
+    and the caller's arrays are unchanged."""
+    st = {}
+
+    def setup():
+        CS.install_cache_summaries(V)
+        n = V.size('n', 5)
+        x = V.array('x', n, dtype, origin='param')
+        pad = V.array('pad', n + extra, dtype, origin='param')
+        y = V.np.np_array([x[i - lag] if 0 <= i - lag < n else pad[i] for i in range(n + extra)])
+        arrs = [x, y] if master == 0 else [y, x]
+        st.update(x=x, pad=pad, n=n)
+        c = V.itp.call(V.itp.get_function(M_ + 'Cluster'), [arrs, Q('0.5')], dict(master_index=master))
+        st['c'] = c
+        if op == 'time_match':
+            return ((c,), dict(steps=2))
+        return ((c,), {})
+    for out in V.run(M_ + 'Cluster.' + op, setup):
+        out.replay_info = dict(module='cluster', op='well-formed', which=op, lag=lag, master=master, extra=extra, dtype=dtype)
+        if not out.no_raise():
+            continue
+        c = st['c']
+        sigs = [V.itp.call(V.itp.get_attr(c, 'signal_by_index'), [j], {}) for j in range(2)]
+        for j, sg in enumerate(sigs):
+            CS.check_ownership(V, out, sg, tag='signal-%d/' % j)
+            CS.check_time_axis(V, out, sg, tag='signal-%d/' % j)
+        out.unchanged('x', st['x'])
+        out.unchanged('pad', st['pad'])
